@@ -8,6 +8,10 @@ use std::env;
 #[path = "./mod_test.rs"]
 mod mod_test;
 
+fn is_valid_name(name: &str) -> bool {
+    !name.is_empty() && !name.contains('=') && !name.contains('\0')
+}
+
 #[derive(Clone)]
 pub(crate) struct CommandImpl {
     package: String,
@@ -47,9 +51,11 @@ impl Command for CommandImpl {
                     Some(state_value) => match state_value {
                         StateValue::SubState(map) => {
                             for (env_key, env_value) in map {
-                                if !env_key.is_empty() {
+                                if is_valid_name(env_key) {
                                     if let Ok(env_value_string) = get_as_string(env_value) {
-                                        env::set_var(&env_key, &env_value_string);
+                                        if !env_value_string.contains('\0') {
+                                            env::set_var(&env_key, &env_value_string);
+                                        }
                                     }
                                 }
                             }
@@ -62,6 +68,8 @@ impl Command for CommandImpl {
                         format!("Map for handle: {} not found.", key).to_string(),
                     ),
                 }
+            } else if !is_valid_name(&context.arguments[0]) || context.arguments[1].contains('\0') {
+                CommandResult::Error("Invalid environment variable name or value.".to_string())
             } else {
                 env::set_var(&context.arguments[0], &context.arguments[1]);
 
